@@ -126,6 +126,13 @@ CORPORA = {
                                                 and b["prog"][3]["x"] == 3)),
     # one fusable node under two differently transposed paths (all 216 triples of 3-D permutations x 3 middles): C04, C02, C08
     "d1-diamond": dict(acts=["Diamond"], maxlen=1, preset="cube", sim=False, emit_all=True, workers=4, final_only=True),
+    # many blocks along one axis: Blelloch / sequential scans and reduction trees over 9..33 unit blocks
+    "d1-scan-long": dict(acts=["Cumulative"], maxlen=1, preset="long", sim=False, lean=True, emit_all=True),
+    "d1-red-long": dict(acts=["Reduce", "ArgReduce"], maxlen=1, preset="long", sim=False, lean=True, emit_all=True),
+    # a node with two fusable dependencies (iteration order of dependency sets must not leak into names / keys)
+    "d1-join": dict(acts=["Join"], maxlen=1, preset="lean", sim=False, lean=True, emit_all=True, final_only=True),
+    # einsum patterns that choose index letters while parsing (ellipsis, several contracted indices)
+    "d2-einsum": dict(acts=["Index"], acts2=["Einsum"], maxlen=2, preset="lean", sim=False, lean=True, workers=4),
     # two different data-dependent selections of one source, then stacked / concatenated (C28: sizes unknown, shapes differ)
     "d3-unknown-pair": dict(acts=["MaskSelect"], acts2=["MaskSelect"], acts3=["StackMismatch", "Concat"], maxlen=3, preset="1d", sim=False,
                             workers=4),
